@@ -7,6 +7,7 @@ R1a explicit-flow taint:   sources = f64 obtained from dual-typed values (DualNu
 R1b guarded constant:      a branch steered by a tainted comparison one of whose arms yields a derivative-free
                            constant of dual type (Zero::zero(), One::one(), From::from(const)).
 R1c signature:             a generic-dual function that returns a tainted non-dual numeric value."""
+import re
 import os
 import tomllib
 
@@ -626,14 +627,27 @@ def run(F, sel=None):
         fk = fn_key(b)
         if sel and not sel(fk):
             continue
-        for sw in steered_switches(F, b, results[b.path]):
+        sws = steered_switches(F, b, results[b.path])
+        cands = [e for fn, es in reviewed.items() if fk.endswith(fn) for e in es]
+        taken = set()
+        hits = {}
+        for k_, sw in enumerate(sws):           # exact descriptor first
+            for j_, e in enumerate(cands):
+                if j_ not in taken and e["desc"] == sw["desc"]:
+                    hits[k_] = e
+                    taken.add(j_)
+                    break
+        for k_, sw in enumerate(sws):           # a respelled comparison (no numeric constant visible: `partial_cmp`, `==` on an
+            if k_ in hits or re.search(r":[-0-9]", sw["desc"]):     # Ordering) may take a reviewed entry that is otherwise unmatched
+                continue
+            for j_, e in enumerate(cands):
+                if j_ not in taken:
+                    hits[k_] = e
+                    taken.add(j_)
+                    break
+        for k_, sw in enumerate(sws):
             n_sw += 1
-            hit = None
-            for fn, es in reviewed.items():
-                if fk.endswith(fn):
-                    for e in es:
-                        if e["desc"] == sw["desc"]:
-                            hit = e
+            hit = hits.get(k_)
             iid = "switch|%s|%s" % (fk, sw["desc"])
             if hit and hit.get("arm_must_call") and not any(hit["arm_must_call"] in arm for arm in sw["arms"]):
                 rd.inst(iid, sw["where"], "violation", arms=sw["arms"])
